@@ -360,6 +360,15 @@ impl<'a> Interp<'a> {
                     }
                 }
             }
+            Tm::HostFn(h) => {
+                // eta-expanded: a closure calling the host function
+                let clo = Closure {
+                    params: vec!["hostarg__".to_string()],
+                    body: Tm::Host(*h, Box::new(Tm::Var("hostarg__".to_string()))),
+                    env: env.clone(),
+                };
+                Ok(V::Clo(Rc::new(clo), Rc::new(vec![])))
+            }
             Tm::Ann(e, _) => self.eval(e, env),
         }
     }
